@@ -59,4 +59,11 @@ for it in range(R.n(5, 30)):
     arr.antennas[0].x.add_noise(0, a)
     R.check('streams/quadrature', dict(a=a, b=b, bg=cbg), abs(s.noise_std - np.hypot(a, b)) < 1e-12 and abs(arr.antennas[0].x.get_total_noise_std() - np.hypot(a, cbg)) < 1e-12
             and abs(arr.antennas[1].x.bg_noise_std - cbg) < 1e-12, None)
+    cbg2 = rng.uniform(0.1, 2)
+    arr.bg_x.add_noise(0, cbg2)
+    want = np.sqrt(cbg ** 2 + cbg2 ** 2)
+    R.check('streams/background-accumulates-in-quadrature', dict(a=a, bg=cbg, bg2=cbg2), abs(arr.antennas[1].x.bg_noise_std - want) < 1e-12
+            and abs(arr.antennas[0].x.get_total_noise_std() - np.sqrt(a ** 2 + want ** 2)) < 1e-12, [float(arr.antennas[1].x.bg_noise_std)], [want])
+    meas = float(np.std(np.asarray(arr.get_samples(200000))[1][0]))
+    R.check('streams/measured-deviation-matches-the-bookkeeping', dict(a=a, bg=cbg, bg2=cbg2), abs(meas - want) < 6 * want / np.sqrt(2 * 200000), meas, want)
 R.finish()
